@@ -92,6 +92,8 @@ class Sim:
             if self.sb is None:
                 return "err"
             self.fns[self.sf][self.sb] += 1
+            if self.block_methods[name]:          # the opcode is a terminator (reference classification, not the Builder's own)
+                self.sb = None
             return "ok"
         return "ok"     # module-level / id / type requests never fail
 
@@ -233,6 +235,32 @@ def run(ctx):
             for by in ("66", "67", "68", "69", "7a"):
                 for af in after:
                     reqs.append(" ".join(x for x in ("build", two, nm, bf, "select_function_by_name/" + by, af) if x))
+    # every generated block-level method (append and insert form) once: it needs a selected block, appends one instruction, and
+    # closes the block iff its opcode is a terminator *of the specification* (reference/specclass.json), whatever sink the
+    # generated method uses
+    if "builder" in T:
+        import buildgen
+        from props import common
+        sc = common.specclass()
+        ref_term = set(sc["ret"]["names"]) | set(sc["abort"]["names"]) | set(sc["branch"]["names"])
+        bg = buildgen.BuildGen(T, rnd)
+        Sim.block_methods = {m["name"]: (m["opname"] in ref_term) for m in bg.methods if m["sink"][0] in ("block", "end_block")}
+        nsweep = 0
+        for m in bg.methods:
+            if m["sink"][0] not in ("block", "end_block") or m["opname"] == "Phi":
+                continue
+            has_ip = any(t == ("insert_point",) for _, t in m["params"])
+            for ipv in (["E", "B", "FE:0", "FB:1"] if has_ip else ["E"]):
+                try:
+                    c = bg.call(m, ip=ipv)
+                except Exception:
+                    continue
+                for tail in ("nop ret", "begin_block/- ret"):
+                    reqs.append("build begin_function/1/-/0/2 begin_block/- nop " + c + " " + tail + " end_function")
+                    nsweep += 1
+                reqs.append("build begin_function/1/-/0/2 " + c + " begin_block/- ret end_function")
+                nsweep += 1
+        ctx.coverage["generated_block_methods_swept"] = nsweep
     maxlen = 4 if ctx.tier == "quick" else 5
     for n in range(1, maxlen + 1):
         for w in itertools.product(alpha, repeat=n):
